@@ -196,8 +196,8 @@ func checkC16(tier string) {
 			"func(f "+ft+", l []"+A+") ([]"+B+", error) { return deriveTraverse_ID(f, l) }")
 	}
 	// ToError
-	for nin := 0; nin <= 2; nin++ {
-		for nout := 0; nout <= 2; nout++ {
+	for nin := 0; nin <= 3; nin++ {
+		for nout := 0; nout <= 5; nout++ {
 			for rep := 0; rep < 2; rep++ {
 				ins, outs := pick(nin), pick(nout)
 				var ps []string
@@ -233,7 +233,7 @@ func checkC16(tier string) {
 	}
 	res := runE1(cases, "C16", 40, env, 1)
 	aggregateE1(rep, "C16", cases, res,
-		fmt.Sprintf("%d configurations: Compose chains of 2..4 stages x every width vector (input 0..2, intermediate and final 0..3; 4-stage chains over a reduced width alphabet in the quick tier) with types rotating through {int, MyInt, string, Flat, [2]int, *int, []int, map[string]int, interface{}}; the four Fmap error forms x 9 element types; Join error forms with 0..3 values; Traverse over lists of length 0..4 (and nil) with the failure at every index; ToError with 0..2 arguments and 0..2 extra results; every choice of failing stage x two distinct error values (one of a user-defined type)", len(cases)),
+		fmt.Sprintf("%d configurations: Compose chains of 2..4 stages x every width vector (input 0..2, intermediate and final 0..3; 4-stage chains over a reduced width alphabet in the quick tier) with types rotating through {int, MyInt, string, Flat, [2]int, *int, []int, map[string]int, interface{}}; the four Fmap error forms x 9 element types; Join error forms with 0..3 values; Traverse over lists of length 0..4 (and nil) with the failure at every index; ToError with 0..3 arguments and 0..5 extra results; every choice of failing stage x two distinct error values (one of a user-defined type)", len(cases)),
 		"state = (configuration, failing stage or none, injected error value); transition = one call of the derived helper with instrumented stages: call log (each stage at most once, left to right, none after the failure), error identity (==), zero values of all other results, success path equal to the sequential composition; a configuration whose generated code does not compile is a violation; non-trivial = every checked (configuration, fault) pair")
 	rep.Finish()
 }
